@@ -63,8 +63,19 @@ func makeEditedObjSized(r *Run, what string, big, huge bool) *simObj {
 	return o
 }
 
-// RunHistSerial is the engine of C11.
+// RunHistSerial is the engine of C11. The history runs inside one bubble in which the serializer's codec goroutines
+// (and the pipeline stages of large parses) proceed only when the seeded scheduler says so, so that what a call leaves
+// running behind it meets the following calls in a controlled, repeatable order.
 func RunHistSerial(r *Run) {
+	c := r.C
+	polKind := c.Intn("policy", polCount)
+	pol := newPipePolicy(c, polKind, 64)
+	schedParkCodecs = true
+	defer func() { schedParkCodecs = false }()
+	schedExec(r, 2_000_000, pol, polNames[polKind], func(newCall func()) { runHistSerialBody(r) })
+}
+
+func runHistSerialBody(r *Run) {
 	c := r.C
 	nser := 1 + c.Intn("nser", 3)
 	sers := make([]*serState, nser)
@@ -100,11 +111,33 @@ func RunHistSerial(r *Run) {
 	var trace []string
 	for k := 0; k < nops && !r.failed(); k++ {
 		what := fmt.Sprintf("op #%d", k)
-		kind := c.Pick("sop", 2, 5, 5, 2)
-		if len(blobs) == 0 && kind == 2 {
+		kind := c.Pick("sop", 2, 5, 5, 2, 1)
+		if len(blobs) == 0 && (kind == 2 || kind == 4) {
 			kind = 1
 		}
 		switch kind {
+		case 4: // a damaged blob deserialized into a reused destination: a failed call is part of the history
+			st := sers[c.Intn("ser", nser)]
+			bl := blobs[c.Intn("blob", len(blobs))]
+			dstObj := objs[c.Intn("dstobj", len(objs))]
+			bad := append([]byte(nil), bl.b...)
+			if f, err := parseFraming(bad); err == nil && f.sec[3].typeOff >= 0 && f.sec[2].typeOff >= 0 && c.Intn("badkind", 3) != 0 {
+				bad[f.sec[2+c.Intn("badsec", 2)].typeOff] = 9
+			} else {
+				bad[len(bad)-1] ^= 0x55
+			}
+			var derr error
+			if err := safely(func() error { _, derr = st.s.Deserialize(bad, dstObj.pj); return nil }); err != nil {
+				walkerFail(r, "deserialize", what+" (damaged blob)", err)
+				break
+			}
+			dstObj.invalid = true
+			st.uses++
+			shared++
+			if derr != nil {
+				r.stat("fault_failed_deserialize_into_reused_dst", 1)
+			}
+			trace = append(trace, fmt.Sprintf("des(damaged blob of mode %d) into a reused dst -> err=%v", bl.mode, derr != nil))
 		case 0: // mode switch
 			st := sers[c.Intn("ser", nser)]
 			st.mode = c.Intn("cmode", 4)
@@ -190,6 +223,15 @@ func RunHistSerial(r *Run) {
 				opDelete(r, o, what+" edit")
 			}
 			trace = append(trace, "edit")
+		}
+	}
+	// settle: whatever earlier calls left running has finished when this (fake-clock) sleep returns
+	if !r.failed() {
+		time.Sleep(time.Millisecond)
+		for _, o := range objs {
+			if o.readable() && !r.failed() {
+				readBack(r, o, bInto, fmt.Sprintf("after the history settled, object from %s; history: %v", o.origin, trace), nil)
+			}
 		}
 	}
 	r.Res.Sample["ops"] = trace
